@@ -520,6 +520,7 @@ def check_C02(chk, R, S):
     prof = {"p_bounded": 1.0, "p_mob": 0.0, "p_steps": 0.1, "range": 1000.0, "fails": [0.0, 0.0, 0.5],
             "acts": ["settimer", "cancel", "send", "bcast", "flag", "goto"]}
     run_sim_class(chk, "sim-exhaustion", gen_many(R, S["sims"], prof), [M.mon_C02])
+    run_sim_class(chk, "sim-watchdog", [gen_watchdog(R) for _ in range(max(60, S["sims"] // 4))], [M.mon_C02])
     run_el_class(chk, "el-chronological", el_chrono(R, max(200, S["el_rand"] // 4)))
     run_el_class(chk, "el-around-source-constants", el_mined(R, max(300, S["el_rand"] // 4)))
     chk.exhaustive = True
@@ -923,6 +924,26 @@ def gen_drive_scenario(R, kinds=("settimer", "settimer", "cancel", "send")):
             "dur": R.choice([None, 2.5]), "maxit": None, "drv": ("drive", ops), "script": script}
 
 
+def gen_range_before_start(R, everybody=True):
+    """the medium's range reaches nobody; the nodes' own ranges are raised through the controller extension from OUTSIDE,
+    on the built simulation before its first step; then the protocols talk"""
+    nn = R.randint(2, 5)
+    msg = itertools.count(0)
+    script = []
+    for me in range(nn):
+        acts = [R.choice([("bcast", next(msg)), ("send", next(msg), R.choice([i for i in range(nn) if i != me]))]) for _ in range(R.randint(1, 3))]
+        rules = [{"trig": R.choice([("init",), ("init",), ("timer", None)]), "nth": None, "acts": acts}]
+        if rules[0]["trig"][0] == "timer":
+            rules.insert(0, {"trig": ("init",), "nth": None, "acts": [("settimer", 0, "abs", R.choice([0.5, 1.0]))]})
+            rules[1]["nth"] = 0
+        script.append(rules)
+    who = list(range(nn)) if everybody else R.sample(range(nn), R.randint(1, nn))
+    ops = [("ext", me, [("range", R.choice([1000.0, 100.0]))]) for me in who] + [("step",)] * 60
+    return {"handlers": R.sample(["T", "C"], 2), "nodes": [{"pos": (3.0 * i, 0.0, 0.0), "ty": 0} for i in range(nn)],
+            "med": (1.0, R.choice([0.0, 0.5]), 0.0), "mob": (0.5, 2.0, (0.0, 0.0, 0.0)), "asserts": [], "seed": 1,
+            "dur": None, "maxit": None, "drv": ("drive", ops), "script": script}
+
+
 def check_C07(chk, R, S):
     chk.rule = ("1-4 nodes x 3 timer names; set/cancel from init, timer, packet and telemetry callbacks, re-entrant "
                 "same-name cancel/set inside the firing handler, ties, past timers, timer storms, requests for one instant made at "
@@ -969,6 +990,7 @@ def check_C08(chk, R, S):
     run_sim_class(chk, "sim-inrange-exhaustion", scs, [M.mon_C08])
     run_sim_class(chk, "sim-bursts", [gen_burst(R) for _ in range(S["sims"] // 2)], [M.mon_C08])
     _many_nodes_class(chk, R, S, [M.mon_C08], rng=1000.0, mob=False)
+    run_sim_class(chk, "sim-range-set-before-start", [gen_range_before_start(R) for _ in range(max(30, S["sims"] // 10))], [M.mon_C08])
 
 
 QUADS = [(1, 2, 2, 3), (2, 3, 6, 7), (1, 4, 8, 9), (4, 4, 7, 9), (2, 6, 9, 11), (6, 6, 7, 11), (3, 4, 12, 13), (2, 10, 11, 15)]
@@ -1080,6 +1102,7 @@ def check_C09(chk, R, S):
     run_sim_class(chk, "sim-range", scs, [M.mon_C09])
     run_sim_class(chk, "sim-same-instant", [gen_same_instant_scenario(R) for _ in range(max(40, S["sims"] // 10))], [M.mon_C09])
     _many_nodes_class(chk, R, S, [M.mon_C09])
+    run_sim_class(chk, "sim-range-set-before-start", [gen_range_before_start(R, everybody=False) for _ in range(max(30, S["sims"] // 10))], [M.mon_C09])
     nb = sum(1 for sc in scs for nd in sc["nodes"][1:] if (M._py_sq(sc["nodes"][0]["pos"], nd["pos"]) == sc["med"][0] ** 2))
     chk.extra["boundary_pairs"] = nb
 
@@ -1610,6 +1633,16 @@ def check_C15(chk, R, S):
                      plugins.disp_to_text, M.mon_C15)
     run_plugin_class(chk, "disp-nested-random", [gen_disp_case(R, 10 if chk.tier == "quick" else 30, nested=True) for _ in range(S["sims"] * 3)],
                      plugins.run_disp_impl, plugins.disp_to_text, M.mon_C15)
+    crowd = []
+    for _ in range(3 if chk.tier == "quick" else 8):
+        # scale in the number of protocol instances that have a dispatcher (130-300): an early instance's dispatcher is
+        # asked for again after all the others were created
+        n = R.randint(130, 300)
+        k = R.choice(["timer", "packet", "telem"])
+        ops = [("create", 0), ("reg", 0, k, 0)] + [("create", i) for i in range(1, n)] + \
+              [("reg", 0, k, 1), ("disp", 0, k), ("unreg", 0, k, 0), ("disp", 0, k), ("reg", n - 1, k, 2), ("disp", n - 1, k), ("disp", 0, k)]
+        crowd.append({"ninst": n, "beh": [[("continue", [])], [("continue", [])], [("interrupt", [])]], "ops": ops})
+    run_plugin_class(chk, "disp-many-instances", crowd, plugins.run_disp_impl, plugins.disp_to_text, M.mon_C15)
     many = {"ninst": 1, "beh": [[("continue", [])]], "ops": [("create", 0), ("reg", 0, "timer", 0)] + [("create", 0)] * 1200 + [("disp", 0, "timer")]}
     run_plugin_class(chk, "disp-many-creates", [many], plugins.run_disp_impl, plugins.disp_to_text, M.mon_C15)
     chk.exhaustive = True
